@@ -55,7 +55,11 @@ fn get_set_cached<T: Clone>(
     key: &std::path::Path,
     value_func: impl FnOnce() -> T,
 ) -> T {
-    let mut lock = cache.lock().expect("cache is poisoned");
+    // A panic in `value_func` (missing or unparsable file) happens before anything is
+    // inserted, so the map is still consistent when the lock is poisoned.
+    let mut lock = cache
+        .lock()
+        .unwrap_or_else(|poisoned| poisoned.into_inner());
     lock.entry(key.into()).or_insert_with(value_func).clone()
 }
 
